@@ -313,6 +313,46 @@ func (fr *frame) doAppend(cc *ssa.CallCommon, args []Value, g *Term, pos token.P
 
 // appendAny appends a slice or string value to base.
 func (fr *frame) appendAny(base SliceV, et types.Type, add Value, g *Term, pos token.Pos) Value {
+	// length-abstracted slices: only lengths are tracked
+	abs := false
+	for _, al := range base.alts {
+		if isAbstract(al.obj) {
+			abs = true
+		}
+	}
+	if as, ok := add.(SliceV); ok {
+		for _, al := range as.alts {
+			if isAbstract(al.obj) {
+				abs = true
+			}
+		}
+	}
+	if abs {
+		var n *Term
+		switch a := add.(type) {
+		case SliceV:
+			n = sliceLen(a)
+		case StringV:
+			n = a.n
+		}
+		var res Value
+		for _, al := range base.alts {
+			newLen := BinBV("bvadd", al.ln, n)
+			fits := Cmp("bvule", newLen, al.cap)
+			if al.obj == nil {
+				fits = False
+			}
+			inPlace := SliceV{alts: []SliceAlt{{g: True, obj: al.obj, off: al.off, ln: newLen, cap: al.cap}}}
+			grown := SliceV{alts: []SliceAlt{{g: True, obj: newObject(AbstractArr{}), off: BV(IntW, 0), ln: newLen, cap: newLen}}}
+			var r Value = iteVal(fits, inPlace, grown)
+			if res == nil {
+				res = r
+			} else {
+				res = iteVal(al.g, r, res)
+			}
+		}
+		return res
+	}
 	var addN *Term
 	var elems func(j int) Value
 	maxAdd := 0
@@ -358,7 +398,7 @@ func (fr *frame) appendCore(base SliceV, et types.Type, addN *Term, maxAdd int, 
 		if fr.e.shadowLog != nil && os.Getenv("VERIF_DEBUG_APPEND") != "" && strings.Contains(fr.e.posStr(pos, nil), os.Getenv("VERIF_DEBUG_APPEND")) {
 			n := -1
 			if al.obj != nil {
-				n = len(al.obj.val.(ArrayV).e)
+				n = arrLen(al.obj)
 			}
 			id := 0
 			if al.obj != nil {
@@ -399,7 +439,7 @@ func (fr *frame) appendCore(base SliceV, et types.Type, addN *Term, maxAdd int, 
 			}
 			obj := fr.newArray(et, nc)
 			arr := obj.val.(ArrayV)
-			for j := 0; j < oldMax; j++ {
+			for j := 0; j < oldMax && !isAbstract(al.obj); j++ {
 				v := fr.readPath(al.obj.val, []PathElem{{idx: BinBV("bvadd", al.off, BV(IntW, uint64(j)))}}, False, pos)
 				if v != nil {
 					arr.e[j] = v
@@ -439,7 +479,7 @@ func (fr *frame) appendCore(base SliceV, et types.Type, addN *Term, maxAdd int, 
 }
 
 func (fr *frame) lenBoundAlt(al SliceAlt) int {
-	n := len(al.obj.val.(ArrayV).e)
+	n := arrLen(al.obj)
 	if m, ok := maxConst(al.ln); ok && m < uint64(n) {
 		return int(m)
 	}
